@@ -47,6 +47,7 @@ class BlockAnalysis:
         self.kind = kind                # 'qr' | 'svd'
         p = fi.params
         self.A, self.q = p[0], (p[1], p[2])
+        self.shape_of = {p[0]}      # names that have the shape of the matrix (the parameter and working copies of it)
         self.env = {self.A: Mat(['rows', 'cols'], ['O', 'O']),
                     self.q[0]: Vec(0, 'O'), self.q[1]: Vec(1, 'O')}
         self.perm = {}          # name -> side
@@ -112,7 +113,7 @@ class BlockAnalysis:
             if pmatch('len(__q) == 0', s.test) is not None and pmatch('len(__q) == 0', s.test)['__q'] == self.qis:
                 self.dummy(s)
                 return
-            if pmatch(f'{self.A}.shape[0] > 0', s.test) is not None:
+            if any(pmatch(f'{n_}.shape[0] > 0', s.test) is not None for n_ in self.shape_of):
                 self.block(s.body)
                 return
             b = pmatch('not np.issubdtype(__x.dtype, np.inexact)', s.test)
@@ -201,6 +202,13 @@ class BlockAnalysis:
                 self.flag_init = {}
             self.flag_init[name] = False
             return
+        # a working copy of the matrix under another name: the factorisation goes on with that name; the parameter keeps
+        # its shape - and its element type, which a promotion of the working copy does not change
+        if isinstance(v, ast.Name) and v.id == self.A and name != self.A and name not in env:
+            env[name] = env[self.A]
+            self.shape_of.add(name)
+            self.A = name
+            return
         # q = np.array(q)
         b = pmatch('np.array(__x)', v)
         if b is not None and b['__x'] == name and isinstance(env.get(name), Vec):
@@ -223,7 +231,7 @@ class BlockAnalysis:
                     f'`{norm(s)}`: the charges to be processed are the intersection of both charge vectors')
             self.qis = name
             return
-        if vt == f'min({self.A}.shape)':
+        if vt in {f'min({n_}.shape)' for n_ in self.shape_of}:
             self.maxdim = name
             return
         if isinstance(v, ast.Constant) and v.value == 0:
@@ -235,9 +243,9 @@ class BlockAnalysis:
             dims = [norm(x) for x in (shp.elts if isinstance(shp, ast.Tuple) else [shp])]
             roles = []
             for d in dims:
-                if d == f'{self.A}.shape[0]':
+                if d in {f'{n_}.shape[0]' for n_ in self.shape_of}:
                     roles.append('rows')
-                elif d == f'{self.A}.shape[1]':
+                elif d in {f'{n_}.shape[1]' for n_ in self.shape_of}:
                     roles.append('cols')
                 elif d == self.maxdim or d == '1':
                     roles.append('interm')
